@@ -142,12 +142,12 @@ fn gen_workload(rng: &mut Rng, thorough: bool) -> Value {
             1 => ops.push(json!(["keep-drop", 0, 0])),
             _ => {}
         }
-        if rng.chance(1, 4) {
+        if rng.chance(1, 2) {
             ops.push(json!(["weak", rng.range(1, 100), 0]));
         }
         bl.push(Value::Array(ops));
     }
-    json!({"jit": jit, "gc": [gn, gd], "chunk": *rng.pick(if thorough { &[256u64, 1024, 4096, 25600][..] } else { &[256u64, 1024, 4096][..] }), "threshold": threshold, "blocks": bl})
+    json!({"jit": jit, "gc": [gn, gd], "chunk": *rng.pick(if thorough { &[256u64, 1024, 4096, 25600][..] } else { &[256u64, 256, 256, 1024, 4096][..] }), "threshold": threshold, "blocks": bl})
 }
 
 fn render(op: &Value, uid: &mut u64) -> String {
@@ -286,6 +286,9 @@ impl Scenario for C19 {
         let mut rooted: Vec<steel::RootedSteelVal> = Vec::new();
         let mut tracker_kinds: Vec<String> = Vec::new();
         let mut pair_redefinitions = 0u64;
+        // weak boxes of earlier blocks, already seen cleared: they stay cleared
+        // whatever the slot of their target is used for later
+        let mut cleared_weak: Vec<String> = Vec::new();
         for (bi, b) in blocks.iter().enumerate() {
             vmh::set_context("block");
             rooted.clear();
@@ -319,7 +322,9 @@ impl Scenario for C19 {
                     let name = format!("wb{}", uid);
                     // target reachable only from the weak box, and a control
                     // whose target stays in the live set
-                    let src = format!("(define {name} (make-weak-box (box {v})))", name = name, v = op[1]);
+                    // right after a collection: the target takes one of the first free slots,
+                    // which are also the first to be handed out again after a later collection
+                    let src = format!("(#%gc-collect)\n(define {name} (make-weak-box (box {v})))", name = name, v = op[1]);
                     if let Err(e) = vmh::eval(&mut engine, &src) {
                         report::violation("C19/unexpected-error", format!("{} failed: {}", src, e));
                     }
@@ -345,6 +350,38 @@ impl Scenario for C19 {
             }
             vmh::set_context(&if jit_struct_used { "jit/mixed".to_string() } else { format!("{}/collect", tier) });
             let vio = |name: &str| if jit_struct_used { format!("C19/jit/mixed/{}", name) } else { format!("C19/{}", name) };
+            if !cleared_weak.is_empty() {
+                // live boxes take over freed slots - among them, sooner or later, the
+                // slot a cleared weak box used to watch; the weak box must not mistake
+                // the new tenant for its target
+                let reads: Vec<String> = cleared_weak.iter().map(|n| format!("(weak-box-value {})", n)).collect();
+                // short-lived boxes walk the allocator's cursor once around the heap; after
+                // every single allocation the cleared weak boxes are read again
+                let src = format!(
+                    "(define (weak-probe n) (let lp ((i 0)) (if (= i n) '() (begin (box 424242) (let ((seen (list {}))) (if (equal? seen '({})) (lp (+ i 1)) (cons i seen)))))))\n(weak-probe {})",
+                    reads.join(" "),
+                    vec!["#f"; reads.len()].join(" "),
+                    (2 * engine.verif_heap_stats().value_slots).min(60_000)
+                );
+                // no forced collections while the probe allocates: a collection would
+                // only make the tenants unreachable again (and costs a full mark each)
+                let saved = vmh::with_faults(|f| std::mem::replace(&mut f.gc_num, 0)).unwrap_or(0);
+                let probed = vmh::eval(&mut engine, &src);
+                vmh::with_faults(|f| f.gc_num = saved);
+                match probed {
+                    Ok(v) => {
+                        let s = v.last().cloned().unwrap_or_default();
+                        report::set_extra("weak_probe_last", json!(format!("block {}: {}", bi, s)));
+                        if s != "()" {
+                            report::violation(
+                                &vio("weak-box-reports-a-value-again-after-it-was-cleared"),
+                                format!("block {}: weak boxes that were cleared in earlier blocks now give {} (the contents of whatever was given the slot of their target)", bi, s),
+                            );
+                        }
+                    }
+                    Err(e) => report::violation(&vio("weak-box-error"), format!("block {}: reading cleared weak boxes failed: {}", bi, e)),
+                }
+            }
             let (lv, lvec, hs) = collect(&mut engine);
             max_slots = max_slots.max(hs.value_slots).max(hs.vector_slots);
             if hs.value_free_accounted != hs.value_free_actual || hs.vector_free_accounted != hs.vector_free_actual {
@@ -384,6 +421,21 @@ impl Scenario for C19 {
                 Ok(v) if v.last().map(|s| s.as_str()) == Some(sum.to_string().as_str()) => {}
                 other => report::violation(&vio("live-data-wrong"), format!("block {}: (keep-sum) gave {:?}, expected {}", bi, other, sum)),
             }
+            for name in cleared_weak.iter() {
+                match vmh::eval(&mut engine, &format!("(list (weak-box-value {n}))", n = name)) {
+                    Ok(v) => {
+                        let s = v.last().cloned().unwrap_or_default();
+                        if s != "(#false)" {
+                            report::violation(
+                                &vio("weak-box-reports-a-value-again-after-it-was-cleared"),
+                                format!("block {}: {} was cleared in an earlier block and now gives {} (the contents of whatever was given the slot of its target)", bi, name, s),
+                            );
+                        }
+                    }
+                    Err(e) => report::violation(&vio("weak-box-error"), format!("block {}: {} failed: {}", bi, name, e)),
+                }
+            }
+            cleared_weak.extend(weak_checks.iter().cloned());
             for name in weak_checks {
                 match vmh::eval(&mut engine, &format!("(list (weak-box-value {n}))", n = name)) {
                     Ok(v) => {
